@@ -124,7 +124,7 @@ impl C12 {
         for a in NUMS { for b in NUMS { lists.push(vec![a, b]); } }
         let small: Vec<Num2> = if tier == Tier::Quick { NUMS[..].iter().cloned().step_by(2).collect() } else { NUMS.to_vec() };
         for a in &small { for b in &small { for c in &small { lists.push(vec![*a, *b, *c]); } } }
-        C12 { lists, n_rand: if tier == Tier::Quick { 40_000 } else { 600_000 }, seed }
+        C12 { lists, n_rand: if tier == Tier::Quick { 200_000 } else { 1_500_000 }, seed }
     }
     fn make(&self, nums: &[T], op: &str, pres: usize) -> BCase {
         let f = func(op, nums.to_vec());
@@ -250,7 +250,7 @@ impl C13 {
                 }
             }
         }
-        C13 { cases, n_rand: if tier == Tier::Quick { 30_000 } else { 400_000 }, seed }
+        C13 { cases, n_rand: if tier == Tier::Quick { 200_000 } else { 1_500_000 }, seed }
     }
     fn pick(&self, idx: u64) -> BCase {
         if (idx as usize) < self.cases.len() { return self.cases[idx as usize].clone(); }
@@ -305,7 +305,7 @@ impl C14 {
         vals.push((vec![], cplx("f", vec![T::Int(1)]), true));
         vals.push((vec![], T::Anon, true));
         let _ = tier;
-        C14 { vals, n_rand: if tier == Tier::Quick { 40_000 } else { 600_000 }, seed }
+        C14 { vals, n_rand: if tier == Tier::Quick { 200_000 } else { 1_500_000 }, seed }
     }
     fn make(&self, a: &(Vec<G>, T, bool), b: &(Vec<G>, T, bool), c: Cmp, pres: usize) -> BCase {
         let mut body: Vec<G> = a.0.clone();
@@ -506,7 +506,7 @@ impl ListBips {
                 } } }
             }
         }
-        let n_rand = match (which, q) { (_, true) => 40_000, (_, false) => 500_000 };
+        let n_rand = match (which, q) { (_, true) => 200_000, (_, false) => 1_500_000 };
         ListBips { which, seed, enumerated: en, n_rand }
     }
 
